@@ -131,6 +131,11 @@ def _pair_case(case, cov, viol):
         probe["pev"] = 50.0
     units.append(probe)
     units.append(E.make_probe(case["seed"], 1, "nonrep0", "pop1", weights=w))
+    # a blocklisted unit that is itself still counting and comes first in the files: taking it out leaves a gap in the
+    # row labels of the outstanding units
+    gap = E.make_probe(case["seed"], 8, "unit_blocklisted", "pop0", weights=w)
+    gap.update(id="AAc0_a0", pev=40.0, r_dem=gap["r_dem"] // 3, r_gop=gap["r_gop"] // 3, r_turnout=gap["r_turnout"] // 3)
+    units.append(gap)
     if st == "state_blocklisted":
         # more fully reporting units of the blocklisted state, so that the state is more than a single-unit fixed effect
         for k in (2, 3, 4):
